@@ -54,7 +54,16 @@ type Server struct {
 	Commands map[string]int
 	reqID    int32
 	curOwner string
+	cursors  map[int64]*cursor
+	nextCur  int64
 	OnArrive func(p *Pending) // optional, called with the lock held when a command becomes pending
+}
+
+// cursor holds what a find has not returned yet (MongoDB returns 101 documents in the first batch
+// unless told otherwise; the rest comes with getMore).
+type cursor struct {
+	ns   string
+	rest bson.A
 }
 
 type conn struct {
@@ -371,6 +380,13 @@ func (s *Server) handle(c *conn, cmd bson.D) (bson.D, bool) {
 		return okDoc(bson.E{Key: "version", Value: "5.0.0"}), false
 	}
 	collName, _ := cmd[0].Value.(string)
+	if s.cursors == nil {
+		s.mu.Lock()
+		if s.cursors == nil {
+			s.cursors = map[int64]*cursor{}
+		}
+		s.mu.Unlock()
+	}
 	write := map[string]bool{"insert": true, "update": true, "delete": true, "findandmodify": true, "createindexes": true, "drop": true}[lname]
 	fault := FaultNone
 	s.mu.Lock()
@@ -522,7 +538,36 @@ func (s *Server) execute(db, name, collName string, cmd bson.D, partial bool) bs
 		for _, d := range out {
 			batch = append(batch, copyDoc(d))
 		}
-		return okDoc(bson.E{Key: "cursor", Value: bson.D{{Key: "firstBatch", Value: batch}, {Key: "id", Value: int64(0)}, {Key: "ns", Value: db + "." + collName}}})
+		first := 101
+		if bs := asInt(valueOr(cmd, "batchSize", int32(0))); bs > 0 {
+			first = int(bs)
+		}
+		var id int64
+		if len(batch) > first && !asBool(valueOr(cmd, "singleBatch", false)) {
+			s.nextCur++
+			id = s.nextCur
+			s.cursors[id] = &cursor{ns: db + "." + collName, rest: batch[first:]}
+			batch = batch[:first]
+		}
+		return okDoc(bson.E{Key: "cursor", Value: bson.D{{Key: "firstBatch", Value: batch}, {Key: "id", Value: id}, {Key: "ns", Value: db + "." + collName}}})
+	case "getmore":
+		id := asInt(cmd[0].Value)
+		c, ok := s.cursors[id]
+		if !ok {
+			return errDoc(43, "CursorNotFound", fmt.Sprintf("cursor id %d not found", id))
+		}
+		n := len(c.rest)
+		if bs := asInt(valueOr(cmd, "batchSize", int32(0))); bs > 0 && int(bs) < n {
+			n = int(bs)
+		}
+		next := c.rest[:n]
+		c.rest = c.rest[n:]
+		rid := id
+		if len(c.rest) == 0 {
+			delete(s.cursors, id)
+			rid = 0
+		}
+		return okDoc(bson.E{Key: "cursor", Value: bson.D{{Key: "nextBatch", Value: next}, {Key: "id", Value: rid}, {Key: "ns", Value: c.ns}}})
 	case "update":
 		upsV, _ := get(cmd, "updates")
 		ups, _ := upsV.(bson.A)
@@ -700,6 +745,11 @@ func (s *Server) execute(db, name, collName string, cmd bson.D, partial bool) bs
 	case "committransaction", "aborttransaction":
 		return errDoc(20, "IllegalOperation", "Transaction numbers are only allowed on a replica set member or mongos")
 	case "killcursors":
+		if ids, ok := valueOr(cmd, "cursors", bson.A{}).(bson.A); ok {
+			for _, v := range ids {
+				delete(s.cursors, asInt(v))
+			}
+		}
 		return okDoc()
 	}
 	s.setGap("command %s not modelled", name)
